@@ -231,7 +231,7 @@ def c03(sc, ctx, ex, ob, V, P):
 
 def c04(sc, ctx, ex, ob, V, P):
     fwd = sc.sched == 'fwd'
-    clock0 = ex.clock_values[0] if ex.clock_values else None
+    clock0 = ex.now0
     for tid in ob.order:
         o = ob.by_id[tid]
         rows = [(i, r) for i, r in enumerate(ob.rows) if r[2] == tid]
@@ -291,7 +291,7 @@ def c04(sc, ctx, ex, ob, V, P):
 def c02(sc, ctx, ex, ob, V, P):
     if sc.sched != 'fwd':
         return
-    clock0 = ex.clock_values[0] if ex.clock_values else None
+    clock0 = ex.now0
     for tid in ob.order:
         o = ob.by_id[tid]
         if o.children or o.start is None:
@@ -428,9 +428,7 @@ def c09(sc, ctx, ex, ob, V, P):
 # C08 (forward only)
 
 def release_of(sc, ctx, ex, ob, tid):
-    cands = [sc.anchor]
-    if ex.clock_values:
-        cands.append(ex.clock_values[0])
+    cands = [sc.anchor, ex.now0]
     ms = ctx.attrs[tid].get('min_start')
     if ms is not None:
         cands.append(ms)
@@ -443,7 +441,7 @@ def release_of(sc, ctx, ex, ob, tid):
 def c08(sc, ctx, ex, ob, V, P):
     if sc.sched != 'fwd':
         return
-    clock_ok = all(v <= sc.anchor for v in ex.clock_values)
+    clock_ok = all(v <= sc.anchor for v in ex.clock_values + [ex.now0])
     if sc.balance:
         for tid in ob.order:
             o = ob.by_id[tid]
